@@ -12,6 +12,7 @@ LEVEL_NOTE = ('scope predicate == component-boundary spec for every pair of '
               'most 2 parts with ranges of at most 2 elements: that bound is a '
               'BOUNDED stand-in, the rest is unbounded')
 EXPECTED = [
+    'restore-options/the-default-directory-is-the-current-one',
     'restore-reader/offered-iff-well-formed',
     'trashcli.lib.path_of_backup_copy.path_of_backup_copy/post/payload-is-files-slash-stem',
     'restore-options/overwrite-only-with-its-flag',
@@ -121,6 +122,14 @@ def reply_battery(repo):
             if shown != want:
                 problems.append('trash-restore %s offers %r, the entries at or beneath '
                                 'it are %r' % (arg, sorted(shown), sorted(want)))
+        # from the root directory: no operand, and an operand relative to '/'
+        for args in ([], [work.lstrip('/')]):
+            run = sb.run('trash-restore', ['--trash-dir', td] + args, stdin='\n', cwd='/')
+            n = len([l for l in run['stdout'].split('\n')
+                     if l.strip()[:1].isdigit() and work in l])
+            if n != len(locs):
+                problems.append('trash-restore %s run from / offers %d of the %d entries'
+                                % (' '.join(args), n, len(locs)))
     return {'confirmed': bool(problems), 'problems': problems[:10],
             'bounded': '%d literal replies x 3 entries' % len(replies)}
 
